@@ -243,9 +243,9 @@ func c07RandCase(r *gen.Rand) int {
 
 func runC07(c *gen.Ctx) error {
 	r, e := c.R, c.E
-	nIn := 4000
+	nIn := 8000
 	if c.Thorough() {
-		nIn = 40000
+		nIn = 80000
 	}
 	var ins []any
 	flush := func() {
